@@ -11,7 +11,7 @@ EXTENDS Settings, Json
 CONSTANTS MaxDepth, EmitDepth, Fix, WithDumper
 VARIABLES S, R, viol, hist
 vars == <<S, R, viol, hist>>
-View == <<S, R, viol>>
+View == <<S, R, viol, Len(hist)>>          \* the length keeps the bound exact when several workers race
 
 IntMax == 2147483647
 V(e, v) == [e |-> e, v |-> v]
